@@ -10,7 +10,7 @@ class Prop(common.PropertyCheck):
     pid = 'C01'
     rule = ("FCS files written by the independent writer over version x datatype x byte-order spelling x per-parameter widths "
             "(uniform and mixed forced) x range kind x offset placement x end convention x padding, plus a malformed stream "
-            "(histogram mode, ASCII, non-byte-aligned, other byte orders, >64 bit). Non-trivial = distinct (datatype, widths, endianness, "
+            "(histogram mode, ASCII, non-byte-aligned, other byte orders, >64 bit); a family with 10-14 parameters; multi-MiB mixed-width files (oracle only). Non-trivial = distinct (datatype, widths, endianness, "
             "placement, end convention, range kinds) tuples with at least one event.")
     batch_size = 200
     assumptions = ["NumPy dtype reinterpretation ('>uK', '<fK') equals big/little-endian byte composition (ofBytes); IEEE bit patterns are compared, not float values",
@@ -20,7 +20,11 @@ class Prop(common.PropertyCheck):
         rng = self.rng
         n = self.budget(1500, 12000)
         for i in range(n):
-            yield {'k': 'file', 'spec': fcsgen.gen_spec(rng, family=fcsgen.FAMILIES[i % 6] if i % 2 else None)}
+            yield {'k': 'file', 'spec': fcsgen.gen_spec(rng, family=fcsgen.FAMILIES[(i // 2) % 7] if i % 2 else None)}
+        # files whose DATA segment spans several MiB (block-wise readers), mixed widths with an event size that is not a power of two
+        for i in range(self.budget(2, 12)):
+            yield {'k': 'big', 'widths': rng.choice([[24, 16], [24, 24, 24], [8, 16, 24], [40, 16, 8], [16, 8]]), 'mib': rng.choice([1.2, 2.3, 3.1]),
+                   'big_endian': rng.random() < 0.5, 'pad_after': rng.choice([0, 1, 64]), 'end_conv': rng.choice(['last', 'past']), 'seed': rng.randrange(1 << 30)}
         # histories: load, edit the loaded sample in place, load the same path again
         for i in range(self.budget(60, 600)):
             yield {'k': 'reload', 'spec': fcsgen.gen_spec(rng, datatype=rng.choice(['I', 'F'])), 'edit': rng.choice(['col0', 'add1', 'zero'])}
@@ -43,7 +47,48 @@ class Prop(common.PropertyCheck):
                                     'pad_text': 0, 'pad_data': rng.choice([0, 3]), 'pad_after': 1 if ec == 'past' else 0,
                                     'order': 'TDA'}}
 
+    def run_big(self, case):
+        import numpy as np, os, FlowCal
+        ws = case['widths']
+        esz = sum(ws) // 8
+        N = int(case['mib'] * (1 << 20)) // esz + 7
+        r = np.random.RandomState(case['seed'])
+        cols = [r.randint(0, 1 << min(w, 62), size=N, dtype=np.uint64) for w in ws]
+        ranges = [1 << (w - (i % 2) * 3) for i, w in enumerate(ws)]
+        raw = np.zeros((N, esz), dtype=np.uint8)
+        o = 0
+        for w, c in zip(ws, cols):
+            nb = w // 8
+            for b in range(nb):
+                sh = 8 * (nb - 1 - b) if case['big_endian'] else 8 * b
+                raw[:, o + b] = (c >> np.uint64(sh)) & np.uint64(0xff)
+            o += nb
+        spec = {'version': 'FCS3.0', 'delim': '/', 'datatype': 'I', 'byteord': '4,3,2,1' if case['big_endian'] else '1,2,3,4', 'widths': ws,
+                'ranges': ranges, 'events': [], 'tot': N, 'raw_data': raw.tobytes().decode(fcswriter.ENC), 'placement': 'header', 'text_offsets_too': True,
+                'end_conv': case['end_conv'], 'pad_text': 0, 'pad_data': 0, 'pad_after': case['pad_after'], 'order': 'TDA'}
+        data, _ = fcswriter.build(spec)
+        path = fcsgen.write_tmp(data, name='big_%d.fcs' % self.evaluations)
+        try:
+            try:
+                d = FlowCal.io.FCSData(path)
+                a = np.asarray(d.view(np.ndarray)).astype(np.uint64)
+                want = np.stack([c & np.uint64(rg - 1) for c, rg in zip(cols, ranges)], axis=1)
+                if a.shape != want.shape:
+                    return {'big': 'shape %s, file has %s' % (a.shape, want.shape)}
+                bad = np.argwhere(a != want)
+                if len(bad):
+                    i, j = bad[0]
+                    return {'big': '%d of %d events differ; first: event %d parameter %d decoded as %d, file encodes %d' % (
+                        len(set(bad[:, 0].tolist())), N, i, j, int(a[i, j]), int(want[i, j]))}
+                return {'big': None, 'n': N}
+            except Exception as e:
+                return {'big': 'supported file refused: %s %s' % (type(e).__name__, str(e)[:100])}
+        finally:
+            os.unlink(path)
+
     def run_impl(self, case):
+        if case['k'] == 'big':
+            return self.run_big(case)
         data, layout = fcswriter.build(case['spec'])
         if case['k'] == 'reload':
             import numpy as np, warnings, os, FlowCal
@@ -76,6 +121,9 @@ class Prop(common.PropertyCheck):
         fcsgen.cleanup()
 
     def oracle(self, case, impl):
+        if case['k'] == 'big':
+            self.bump('big-file')
+            return None if impl['big'] is None else '%s (widths %s, %.1f MiB of DATA)' % (impl['big'], case['widths'], case['mib'])
         spec = case['spec']
         mal = spec.get('malformed')
         if mal:
@@ -112,7 +160,7 @@ class Prop(common.PropertyCheck):
         return None
 
     def model_request(self, case, impl):
-        if case['k'] == 'reload':
+        if case['k'] in ('reload', 'big'):
             return None
         s = case['spec']
         reqs = [{'op': 'load', 'file': impl['file']}]
@@ -137,6 +185,8 @@ class Prop(common.PropertyCheck):
         return None
 
     def nontrivial_key(self, case, impl):
+        if case['k'] == 'big':
+            return ('big', tuple(case['widths']), case['mib'], case['big_endian'])
         s = case['spec']
         if not s['events'] and not s.get('malformed'):
             return None
@@ -144,6 +194,8 @@ class Prop(common.PropertyCheck):
         return (s['datatype'], tuple(s['widths']), s['byteord'], s['placement'], s['end_conv'], rk, s.get('malformed'))
 
     def shrink_candidates(self, case):
+        if case['k'] == 'big':
+            return
         s = case['spec']
         ev = s['events']
         for i in range(len(ev)):
